@@ -53,7 +53,10 @@ def agg_field(e, agg_name, field):
 
 def to_string_of(e):
     """inner expr of `ToString::to_string(&X)`"""
-    if e is not None and e[0] == "call" and e[1] == "alloc::string::ToString::to_string":
+    # (`to_string()`, `to_owned()`, `String::from(..)`, `.into()` of a &str are the same String)
+    if e is not None and e[0] == "call" and e[1] in ("alloc::string::ToString::to_string", "alloc::borrow::ToOwned::to_owned",
+                                                     "core::convert::From::from", "core::convert::Into::into",
+                                                     "alloc::str::<impl str>::to_owned", "alloc::string::String::from") and len(e[2]) == 1:
         return strip_ref(e[2][0])
     return None
 
